@@ -493,6 +493,7 @@ def run(prog, chk):
                         if h_.body and h_.params and h_.params[0].get('id'):
                             helpers.append((h_, {h_.params[0]['id']}))
     nedit = 0
+    stars, dots = [], []
     for fn_, g_, ids_ in [(checksum, gc, other)] + [(h_, prog.cfg(h_), i_) for h_, i_ in helpers]:
       for cn in g_.nodes:
           if cn.kind not in ('call', 'assign') or not SX.is_node(cn.e):
@@ -529,10 +530,20 @@ def run(prog, chk):
                               and any(SX.is_node(SX.strip(x)) and SX.strip(x).get('k') == 'str' and SX.strip(x).get('v') == './' for x in SX.real_args(l)) \
                               and SX.is_node(r) and r.get('v') == 0:
                           ok_edit = True
+          if ok_edit:
+              (stars if vals[1] == 1 else dots).append((fn_, g_, cn))
           chk.ob('R20.4', fn_, cn.ln or fn_.ln, ok_edit,
                  'the listed file name is edited before it is compared with the asset name (%s): only a leading \'*\' and a leading "./" may be removed, each by a fixed-length erase under an '
                  'exact test of that prefix — anything broader lets the entry of another file stand in for the asset\'s' % why, key='name-edit:' + why[:30])
     chk.count('edits of the listed name before the comparison', nedit, 1)
+    # the binary-mode marker belongs to the line format (`<hash> <space or '*'><name>`), the "./" to the name: `<hash> *./<asset>` is what
+    # `sha256sum -b ./<asset>` writes, so the marker comes off first — with the order reversed that entry is not found and the download is
+    # installed unverified
+    for fs_, gs_, sn in stars:
+        for fd_, gd_, dn in dots:
+            if fs_ is fd_:
+                chk.ob('R20.4', fs_, sn.ln, sn.id not in gs_.reachable([dn], avoid=[h_ for h_ in gs_.nodes if h_.kind == 'loophead']), 'the binary-mode \'*\' is removed before the "./" prefix is looked for (`<hash> *./<asset>` is the asset\'s own entry)',
+                       key='name-edit:marker-first')
     # mismatch aborts before extraction
     mism = []
     for n in g.nodes:
